@@ -6,4 +6,5 @@ Extraction "model.ml"
   merge_server merge_client store_server_toy store_client_toy hash_users toy_hash
   link_guard link_guard_v0 simple_link parse_url_port parse_port_range flat_binding flat_ok atoi
   validate_user validate_profile validate_server_patch validate_full_server validate_client_patch validate_full_client
-  export_server export_server_v0 link_as_parsed simple_view.
+  export_server export_server_v0 link_as_parsed simple_view
+  step_toy run_outs hint_input.
